@@ -60,7 +60,7 @@ TOTAL_CORE = (
     "core::iter::traits::iterator::Iterator::", "core::iter::adapters::", "<core::iter::adapters::", "<core::str::iter::", "<core::slice::iter::",
     "<T as core::convert::", "<char as core::", "<str as core::cmp::PartialEq", "<&A as core::cmp::PartialEq", "core::cmp::", "<&'a ",
     "core::fmt::", "core::convert::", "<core::ops::range::", "core::str::<impl str>::", "core::char::methods::<impl char>::",
-    "core::num::<impl ", "core::mem::replace", "[T]::iter", "core::slice::<impl [T]>::iter", "[T]::len", "core::slice::<impl [T]>::len", "<I as core::iter::traits::collect::IntoIterator>::into_iter", "<u64 as core::ops::bit::", "u64::", "u8::", "u16::", "usize::", "<bool>::then_some", "bool::then_some", "core::bool::<impl bool>::then_some",
+    "core::num::<impl ", "core::mem::replace", "[T]::iter", "core::slice::<impl [T]>::iter", "<[T; N] as core::iter::traits::collect::IntoIterator>::into_iter", "<core::array::iter::", "<&'a [T; N] as core::iter::traits::collect::IntoIterator>::into_iter", "[T]::len", "core::slice::<impl [T]>::len", "<I as core::iter::traits::collect::IntoIterator>::into_iter", "<u64 as core::ops::bit::", "u64::", "u8::", "u16::", "usize::", "<bool>::then_some", "bool::then_some", "core::bool::<impl bool>::then_some",
 )
 PARTIAL_CORE = ("::unwrap", "::expect", "::split_at", "::index", "::index_mut", "slice::index", "::unwrap_unchecked", "::get_unchecked",
                 "::nth", "::step_by", "::chunks", "::windows", "::from_utf8_unchecked", "::split_at_mut", "::copy_from_slice", "::swap", "::remove", "::insert")
